@@ -257,9 +257,15 @@ namespace hgraph::detail
                 return false;
             }
 
+            const bool modified_in_transition = previous.modified(link->structural_transition_time());
+            // The slot store keeps a pending-erase slot until the next
+            // mutation. Unless the previous target removed the key in the
+            // transition cycle itself, that removal was delivered in its own
+            // cycle: the key is no longer part of the published set and must
+            // not be reported as removed a second time.
+            if (!modified_in_transition && state->slot_access->slot_removed(previous, slot)) { return false; }
             const bool added_in_transition =
-                previous.modified(link->structural_transition_time()) &&
-                state->slot_access->slot_added(previous, slot);
+                modified_in_transition && state->slot_access->slot_added(previous, slot);
             return state->slot_access->slot_published(previous, slot) && !added_in_transition;
         }
 
